@@ -722,7 +722,7 @@ class Frame:
                 return T.mul(a, b)
             return ("f", "mul", (a, b), ())
         if isinstance(op, ast.Div):
-            self.ev.divisions.append((b, node, self.f))
+            self.ev.divisions.append((b, node, self.f, self.outer_conds + (self.cur.conds if self.cur is not None else ())))
             return T.div(a, b) if num else ("f", "div", (a, b), ())
         if isinstance(op, ast.Pow):
             cv = T.const_value(b)
